@@ -5,6 +5,11 @@ Proof: TG.Props.C17 (Coq, partial): for ALL op sequences whose range arguments a
 ranges handed to inlay_hint, define_loc / reference_locs of every symbol, index diagnostics) is valid:
 workspace file, lo <= hi <= byte length, UTF-8 character boundaries (`C17_range_valid_meaning`); and every such
 range is literally the range argument of an op (`C17_ranges_come_from_ops`).
+Tree part (imports C01/C02 of the parser group and Folding of the outline group): for the parse of ANY text with the
+grammar regenerated from the current sources, syntax-error ranges, every node / token range, every
+`range_excluding_trivia` of a node (document links) and every folding range are valid in the file
+(`C17_parse_ranges_valid`; `C17_tree_ranges_valid` / `C17_folding_ranges_valid` for ANY green tree). The ties of
+those models to parser.rs / grammar/*.rs / folding_range.rs / utils.rs are the ones of checks C01, C02, C18.
 Tie (C): the real indexer runs on every generated workspace with hook H3; the extracted model replays the REAL
 op log; `ops_ranges_wf` is evaluated on the real log and the real texts (code points -> model UTF-8 lengths);
 interval maps, symbols, goto/references at every offset and index-diagnostic ranges are compared.
@@ -19,11 +24,17 @@ import symgen
 import symlib as L
 import vlib
 
-THEOREMS = ["C17_symbol_ranges_valid_partial", "C17_range_valid_meaning", "C17_ranges_come_from_ops", "C17_nonvacuous"]
+THEOREMS = ["C17_symbol_ranges_valid_partial", "C17_range_valid_meaning", "C17_ranges_come_from_ops", "C17_nonvacuous",
+            "C17_tree_ranges_valid", "C17_folding_ranges_valid", "C17_parse_ranges_valid", "C17_parse_nonvacuous"]
+# the tree part is stated about the grammar / kind tables regenerated from the current sources
+TRANSLATORS = ["t_tokens", "t_lextables", "t_unicode", "t_grammar", "t_grammarcert", "t_foldkinds"]
 TRUSTED = [
     "Coq 8.16.1 kernel; vm_compute only in the closed Example",
-    "PARTIAL: proved for the ranges that go through the symbol map (op-level model); the indexer (index.rs) and the tree-derived ranges "
-    "(folding, links, hint positions, syntax-error diagnostics, range_excluding_trivia) are covered only by the oracle on real results",
+    "PARTIAL: proved (a) for the ranges that go through the symbol map (op-level model, hypothesis ops_ranges_wf checked on real logs) and "
+    "(b) for syntax-error, node, token, trimmed-node (links) and folding ranges of the parse model (C01/C02/C18 models; their ties are "
+    "checked by checks C01, C02, C18); NOT proved: that index.rs passes only such ranges paired with the right file, and inlay_hint.rs positions "
+    "-- covered by the oracle on every range of every real result",
+    "translators t_tokens, t_lextables, t_unicode, t_grammar, t_grammarcert, t_foldkinds (tree part)",
     "hook H3 logs every mutating SymbolMap call and IndexCtx::error with its range (cfg tablegen_lsp_verif)",
     "modelled, not verified: iset::IntervalMap, id_arena, HashMap/IndexMap (association lists)",
     "UTF-8 length of a scalar value: TG.Model.Chars.utf8_len (compared against Rust's String by the byte lengths symdump reports)",
@@ -33,11 +44,22 @@ TRUSTED = [
 
 def gen_inputs(ctx):
     g = symgen.Gen(ctx.rng)
-    der = L.derived_workspaces(g, ctx.rng, 260 if ctx.quick else 800, 2, 3, 5 if ctx.quick else 8)
+    der = L.derived_workspaces(g, ctx.rng, 260 if ctx.quick else 1800, 2, 3, 5 if ctx.quick else 8)
     wss, kinds = [], []
     for kind, files, root in der:
         wss.append(L.mk_ws(files, root, ctx.rng, hover=False, completion=False, hints="sample"))
         kinds.append(kind)
+    # texts that end inside a literal / comment / stray token with a non-ASCII last character, and character-level cuts
+    g2 = symgen.Gen(ctx.rng)
+    for _ in range(120 if ctx.quick else 1500):
+        files, root = g2.workspace()
+        rt = [t for p, t in files if p == root][0]
+        others = [f for f in files if f[0] != root]
+        wss.append(L.mk_ws(others + [[root, symgen.eof_nonascii(rt, ctx.rng)]], root, ctx.rng, hover=False, completion=False))
+        kinds.append("eof-nonascii")
+        for t in symgen.char_prefixes(symgen.inject_nonascii(rt, ctx.rng), ctx.rng, 2):
+            wss.append(L.mk_ws(others + [[root, t]], root, ctx.rng, hover=False, completion=False))
+            kinds.append("char-prefix")
     # hand-written seeds: multi-byte characters directly before / after / between identifiers
     seeds = [
         "class Ä; class B : A;\n// é\r\nclass A { int x = 1; }\r\ndef d : A { let x = 2; } // 漢字",
@@ -45,6 +67,8 @@ def gen_inputs(ctx):
         "class A { string s = \"é漢\U0001F600\"; int é = s; }\ndef d : A { let s = \"ß\"; }",
         "include \"é.td\"\r\nclass A;\r\n\r\nclass B : A {\r\n  int x;\r\n}\r\n",
         "﻿class A;\nclass B : A;",
+        "class A { string s = \"caf\u00e9",
+        "class A; /* \u6f22",
         "class A; class B : A; def d : B;",
     ]
     for s in seeds:
@@ -58,12 +82,12 @@ def corpus_inputs(ctx):
         return []
     os.environ["INCLUDE_DIR"] = "/c"
     return [L.mk_ws(files, root, None, hover=False, completion=False, hints="full")
-            for files, root in L.corpus_workspaces(ctx.rng, 8, 30000)]
+            for files, root in L.corpus_workspaces(ctx.rng, 20, 21000)]
 
 
 def run(ctx):
     bindir = vlib.build_harness(True, bins=["symdump"])
-    fails = vlib.proof_step(ctx, "TG.Props.C17", THEOREMS, ["props/C17.vo"], TRUSTED, translators=[])
+    fails = vlib.proof_step(ctx, "TG.Props.C17", THEOREMS, ["props/C17.vo"], TRUSTED, translators=TRANSLATORS)
     exe = vlib.build_model("symmap")
     wss, kinds = gen_inputs(ctx)
     res = L.evaluate(bindir, exe, wss)
